@@ -3,7 +3,7 @@ import io
 import re
 import tokenize
 
-from .. import core, eqv, values
+from .. import core, eqv, gens, values
 
 ID = 'C10'
 LEVEL = 'exploration'
@@ -144,7 +144,7 @@ def strategy(tier):
             st.lists(hashable, max_size=5).map(lambda xs: ['sub', 'set', 'plain', ['set', xs]]),
             st.lists(hashable, max_size=5).map(lambda xs: ['sub', 'frozenset', 'plain', ['fset', xs]]),
             st.tuples(st.sampled_from(['box', 'alt']), st.lists(ch, max_size=3),
-                      st.lists(st.tuples(st.sampled_from(['a', 'b']), ch).map(list), max_size=2, unique_by=lambda p: p[0])).map(
+                      gens.named_values(st, ['a', 'b'], ch, 2)).map(
                 lambda p: ['call', p[0], p[1], p[2]]),
         )
     plain = st.recursive(leaf, ext, max_leaves=30).filter(lambda r: r[0] in ('list', 'tuple', 'set', 'fset', 'dict'))
